@@ -287,6 +287,16 @@ fn accept(w: &World, class: Class, circ: usize, bytes: &[u8], section: &str, fam
     res.accepted = true;
     res.strict_ok = true;
     let cname = class.name();
+    // the accepted INPUT itself must consist of well-formed elements (a decoder
+    // that silently normalises a non-canonical element would re-encode cleanly)
+    if class != Class::Cc {
+        if let Err(d) = fmt::strict(class, bytes) {
+            if d.kind != "structure" {
+                res.strict_ok = false;
+                res.viol.push((format!("{}/{}/{}/input-accepted", cname, d.section, d.kind), format!("the decoder accepted an input containing an ill-formed element: {}", defect_str(&d))));
+            }
+        }
+    }
     let strict_fail = |res: &mut Res, what: &str, class_of: Class, re: &[u8], raw: bool| {
         let r = if raw { fmt::layout_pp_raw(re).and_then(|l| fmt::check_elements(&l, re)) } else { fmt::strict(class_of, re).map(|_| ()) };
         if let Err(d) = r {
